@@ -140,4 +140,221 @@ theorem election_repeats_when_few :
 example : IsSort sortPD := sortPD_isSort
 example : IsPerm (fun _ n => List.range n) := fun _ _ => List.Perm.refl _
 
+/-! ## b. ticker (instants in nanoseconds; the interval is a whole number of seconds) -/
+
+/-- `common.NewTicker(start, time.Second * ivs)` -/
+def secTicker (start : Int) (ivs : Nat) : Ticker := ⟨start, nsPerSec * ivs⟩
+
+/-- `ToTime k = [start + k·interval, start + (k+1)·interval)` as long as `(k+1)·interval` fits the int64
+    nanosecond `Duration` (292 years after the start). -/
+theorem ticker_toTime_spec (start : Int) (ivs k : Nat) (hiv : 0 < ivs)
+    (h : nsPerSec * ivs * ((k : Int) + 1) ≤ maxDuration) :
+    (secTicker start ivs).toTime k = (start + nsPerSec * ivs * k, start + nsPerSec * ivs * ((k : Int) + 1)) := by
+  unfold Ticker.toTime secTicker
+  simp only
+  have hI : (1 : Int) ≤ nsPerSec * ivs := by unfold nsPerSec; omega
+  generalize nsPerSec * (ivs : Int) = I at *
+  have hk1 : ((k : Int) + 1) ≤ I * ((k : Int) + 1) := by
+    have := Int.mul_le_mul_of_nonneg_right hI (show (0 : Int) ≤ (k : Int) + 1 by omega)
+    rwa [Int.one_mul] at this
+  have hk0 : 0 ≤ I * (k : Int) := Int.mul_nonneg (by omega) (by omega)
+  have hk2 : I * (k : Int) ≤ I * ((k : Int) + 1) := by rw [Int.mul_add, Int.mul_one]; omega
+  have e1 : toInt64 k = (k : Int) := toInt64_of_lt k (by simp only [two63, maxDuration] at *; omega)
+  have e2 : toInt64 (k + 1) = ((k : Int) + 1) := by
+    rw [toInt64_of_lt (k + 1) (by simp only [two63, maxDuration] at *; omega)]; omega
+  rw [e1, e2, wrap64_of_range _ (by simp only [minDuration]; omega) (by omega),
+    wrap64_of_range _ (by simp only [minDuration]; omega) h]
+
+/-- `ToTick(start + x seconds) = ⌊x / interval⌋` for every instant at or after the start (x within the
+    292-year range in which `time.Sub` does not saturate). -/
+theorem ticker_toTick_spec (start : Int) (ivs x : Nat) (hiv : 0 < ivs)
+    (hivr : nsPerSec * ivs ≤ maxDuration) (hx : nsPerSec * x ≤ maxDuration) :
+    (secTicker start ivs).toTick (start + nsPerSec * x) = some (x / ivs) := by
+  unfold Ticker.toTick secTicker
+  simp only
+  have hs : timeSub (start + nsPerSec * x) start = nsPerSec * x :=
+    by rw [timeSub_of_range _ _ (by simp only [minDuration, nsPerSec] at *; omega) (by omega)]; omega
+  rw [hs, durSeconds_mul, durSeconds_mul]
+  rw [toUInt64_of_nonneg _ (by omega) (by simp only [two64i, maxDuration, nsPerSec] at *; omega),
+    toUInt64_of_nonneg _ (by omega) (by simp only [two64i, maxDuration, nsPerSec] at *; omega)]
+  simp only [Int.toNat_natCast]
+  rw [if_neg (by omega)]
+
+/-- `ToTime(ToTick t).start ≤ t < ToTime(ToTick t).end` for every whole-second instant t ≥ start. -/
+theorem ticker_bracket (start : Int) (ivs x : Nat) (hiv : 0 < ivs)
+    (hx : nsPerSec * ((x : Int) + ivs) ≤ maxDuration) :
+    ∃ k, (secTicker start ivs).toTick (start + nsPerSec * x) = some k ∧
+      ((secTicker start ivs).toTime k).1 ≤ start + nsPerSec * x ∧
+      start + nsPerSec * x < ((secTicker start ivs).toTime k).2 := by
+  have hx1 : nsPerSec * (x : Int) ≤ maxDuration := by simp only [nsPerSec] at *; omega
+  have hx2 : nsPerSec * (ivs : Int) ≤ maxDuration := by simp only [nsPerSec] at *; omega
+  refine ⟨x / ivs, ticker_toTick_spec start ivs x hiv hx2 hx1, ?_⟩
+  have hdm := Nat.div_add_mod x ivs
+  have hml := Nat.mod_lt x hiv
+  have e : nsPerSec * (ivs : Int) * ((x / ivs : Nat) : Int) = nsPerSec * ((ivs * (x / ivs) : Nat) : Int) := by
+    rw [Int.mul_assoc, Int.natCast_mul]
+  have e' : nsPerSec * (ivs : Int) * (((x / ivs : Nat) : Int) + 1)
+      = nsPerSec * ((ivs * (x / ivs) : Nat) : Int) + nsPerSec * ivs := by
+    rw [Int.mul_add, Int.mul_one, e]
+  rw [ticker_toTime_spec start ivs (x / ivs) hiv (by rw [e']; simp only [nsPerSec] at *; omega)]
+  simp only
+  rw [e, e']
+  simp only [nsPerSec] at *
+  omega
+
+/-- `ToTick` is monotone (on whole-second instants at or after the start). -/
+theorem ticker_mono (start : Int) (ivs x y : Nat) (hiv : 0 < ivs) (hivr : nsPerSec * ivs ≤ maxDuration)
+    (hy : nsPerSec * y ≤ maxDuration) (hxy : x ≤ y) (a b : Nat)
+    (ha : (secTicker start ivs).toTick (start + nsPerSec * x) = some a)
+    (hb : (secTicker start ivs).toTick (start + nsPerSec * y) = some b) : a ≤ b := by
+  rw [ticker_toTick_spec start ivs x hiv hivr (by simp only [nsPerSec] at *; omega)] at ha
+  rw [ticker_toTick_spec start ivs y hiv hivr hy] at hb
+  cases ha; cases hb
+  exact Nat.div_le_div_right hxy
+
+/-- the start of tick k maps back to k -/
+theorem ticker_roundtrip (start : Int) (ivs k : Nat) (hiv : 0 < ivs)
+    (h : nsPerSec * ivs * ((k : Int) + 1) ≤ maxDuration) :
+    (secTicker start ivs).toTick ((secTicker start ivs).toTime k).1 = some k := by
+  rw [ticker_toTime_spec start ivs k hiv h]
+  simp only
+  have hI : (1 : Int) ≤ nsPerSec * ivs := by unfold nsPerSec; omega
+  have e : nsPerSec * (ivs : Int) * (k : Int) = nsPerSec * ((ivs * k : Nat) : Int) := by
+    rw [Int.mul_assoc, Int.natCast_mul]
+  have h1 : nsPerSec * (ivs : Int) * (k : Int) ≤ nsPerSec * ivs * ((k : Int) + 1) := by
+    rw [Int.mul_add, Int.mul_one]; omega
+  have h2 : nsPerSec * (ivs : Int) ≤ nsPerSec * ivs * ((k : Int) + 1) := by
+    have := Int.mul_le_mul_of_nonneg_left (show (1 : Int) ≤ (k : Int) + 1 by omega) (show 0 ≤ nsPerSec * (ivs : Int) by omega)
+    rwa [Int.mul_one] at this
+  rw [e, ticker_toTick_spec start ivs (ivs * k) hiv (by omega) (by rw [← e]; omega)]
+  rw [Nat.mul_div_cancel_left k hiv]
+
+/-- negative witness (why `ElectionByTime` refuses instants before genesis): one second before the start is
+    tick ⌊(2^64−1)/300⌋ = 61489146912365172. -/
+theorem ticker_before_start_is_huge :
+    (secTicker (1000 * nsPerSec) 300).toTick (999 * nsPerSec) = some 61489146912365172 := by decide
+
+/-- negative witness for the range hypothesis: 292 years after the start `interval * Duration(tick)` wraps
+    around and the tick "ends" before the Unix epoch. -/
+theorem ticker_wraps_after_292_years : ((secTicker 0 300).toTime 30744573).2 < 0 := by decide
+
+/-- an interval of zero seconds (NodeCount = 0) is an integer division by zero -/
+theorem ticker_zero_interval_panics : (secTicker 0 0).toTick nsPerSec = none := by decide
+
+/-! ## c. schedule of a tick -/
+
+/-- exactly one producer per slot: with `NodeCount` elected addresses the schedule has `NodeCount` entries and
+    slot i is `[tickStart + i·B, tickStart + (i+1)·B)` held by the i-th elected pillar (B = block time). -/
+theorem schedule_slot (c : Ctx) (tick : Nat) (addrs : List Bytes) (h : addrs.length = c.nodeCount) (i : Nat) :
+    (generateProducers c tick addrs).length = c.nodeCount ∧
+    (generateProducers c tick addrs)[i]? = addrs[i]?.map (fun a =>
+      ⟨(c.ticker.toTime tick).1 + wrap64 (c.blockTime * nsPerSec) * i,
+       (c.ticker.toTime tick).1 + wrap64 (c.blockTime * nsPerSec) * (i + 1), a⟩) := by
+  unfold generateProducers
+  rw [if_neg (by omega)]
+  exact ⟨by rw [genEvents_length, h], genEvents_getElem? _ _ _ _⟩
+
+/-- slots tile without gap or overlap: slot i ends exactly where slot i+1 starts -/
+theorem schedule_no_gap (c : Ctx) (tick : Nat) (addrs : List Bytes) (h : addrs.length = c.nodeCount)
+    (i : Nat) (p q : ProducerEvent) (hp : (generateProducers c tick addrs)[i]? = some p)
+    (hq : (generateProducers c tick addrs)[i + 1]? = some q) : p.endTime = q.startTime := by
+  rw [(schedule_slot c tick addrs h i).2] at hp
+  rw [(schedule_slot c tick addrs h (i + 1)).2] at hq
+  cases ha : addrs[i]? with
+  | none => rw [ha] at hp; cases hp
+  | some a =>
+    cases hb : addrs[i + 1]? with
+    | none => rw [hb] at hq; cases hq
+    | some b =>
+      rw [ha] at hp; rw [hb] at hq
+      simp only [Option.map_some, Option.some.injEq] at hp hq
+      subst hp; subst hq
+      simp only [Int.natCast_succ]
+
+/-- with the wrong number of addresses no schedule is produced at all -/
+theorem schedule_wrong_count (c : Ctx) (tick : Nat) (addrs : List Bytes) (h : addrs.length ≠ c.nodeCount) :
+    generateProducers c tick addrs = [] := by
+  unfold generateProducers; rw [if_pos h]
+
+/-- the slots cover the tick exactly: the last slot ends at the end of the tick
+    (positive block time and node count, tick within the 292-year range). -/
+theorem schedule_covers_tick (genesis : Int) (bt n tick : Nat) (hbt : 0 < bt) (hn : 0 < n)
+    (hr : nsPerSec * ((bt * n : Nat) : Int) * ((tick : Int) + 1) ≤ maxDuration) :
+    ((Ctx.mk genesis bt n).ticker.toTime tick).2 =
+      ((Ctx.mk genesis bt n).ticker.toTime tick).1 + wrap64 ((bt : Int) * nsPerSec) * n := by
+  have hJ : 0 < bt * n := Nat.mul_pos hbt hn
+  have hI : (0 : Int) ≤ nsPerSec * ((bt * n : Nat) : Int) := by unfold nsPerSec; omega
+  have h1 : nsPerSec * ((bt * n : Nat) : Int) ≤ nsPerSec * ((bt * n : Nat) : Int) * ((tick : Int) + 1) := by
+    have := Int.mul_le_mul_of_nonneg_left (show (1 : Int) ≤ (tick : Int) + 1 by omega) hI
+    rwa [Int.mul_one] at this
+  have hbn : bt ≤ bt * n := Nat.le_mul_of_pos_right bt hn
+  have htk : (Ctx.mk genesis bt n).ticker = secTicker genesis (bt * n) := by
+    unfold Ctx.ticker secTicker
+    simp only
+    rw [toUInt64_of_nonneg _ (by omega) (by simp only [two64i, maxDuration, nsPerSec] at *; omega)]
+    simp only [Int.toNat_natCast]
+    rw [toInt64_of_lt _ (by simp only [two63, maxDuration, nsPerSec] at *; omega)]
+    rw [wrap64_of_range _ (by simp only [minDuration]; omega) (by omega)]
+  rw [htk, ticker_toTime_spec genesis (bt * n) tick hJ hr]
+  simp only
+  rw [wrap64_of_range _ (by simp only [minDuration, nsPerSec]; omega)
+    (by simp only [maxDuration, nsPerSec] at *; omega)]
+  rw [Int.mul_add, Int.mul_one, Int.natCast_mul]
+  have : (bt : Int) * nsPerSec * (n : Int) = nsPerSec * ((bt : Int) * (n : Int)) := by
+    rw [Int.mul_comm (bt : Int) nsPerSec, Int.mul_assoc]
+  omega
+
+/-- the producer for an instant is a function of (election result, instant): whatever `GetMomentumProducer`
+    returns is the i-th elected address of the instant's tick, and the instant is EXACTLY the start of slot i. -/
+theorem producer_sound (c : Ctx) (elected : Nat → Option (List Bytes)) (t : Int) (p : Bytes)
+    (h : getMomentumProducer c elected t = .ok p) :
+    c.genesis ≤ t ∧ ∃ (tick : Nat) (addrs : List Bytes) (i : Nat), c.ticker.toTick t = some tick ∧ elected tick = some addrs ∧
+      addrs.length = c.nodeCount ∧ addrs[i]? = some p ∧
+      t = (c.ticker.toTime tick).1 + wrap64 (c.blockTime * nsPerSec) * (i : Int) := by
+  unfold getMomentumProducer at h
+  split at h
+  · cases h
+  · rename_i hg
+    refine ⟨by omega, ?_⟩
+    split at h
+    · cases h
+    · rename_i tick htick
+      split at h
+      · cases h
+      · split at h
+        · cases h
+        · rename_i addrs hel
+          split at h
+          · rename_i ev hfind
+            cases h
+            unfold generateProducers at hfind
+            split at hfind
+            · simp at hfind
+            · rename_i hlen
+              obtain ⟨i, h1, h2⟩ := genEvents_find_sound _ _ _ _ _ hfind
+              exact ⟨tick, addrs, i, htick, hel, by omega, h1, h2⟩
+          · cases h
+
+/-- conversely every slot start is answered with that slot's pillar (positive block time). -/
+theorem producer_complete (c : Ctx) (elected : Nat → Option (List Bytes)) (tick : Nat) (addrs : List Bytes)
+    (i : Nat) (a : Bytes) (hB : 0 < wrap64 (c.blockTime * nsPerSec))
+    (hel : elected tick = some addrs) (hlen : addrs.length = c.nodeCount) (ha : addrs[i]? = some a)
+    (hg : c.genesis ≤ (c.ticker.toTime tick).1 + wrap64 (c.blockTime * nsPerSec) * (i : Int))
+    (htick : c.ticker.toTick ((c.ticker.toTime tick).1 + wrap64 (c.blockTime * nsPerSec) * (i : Int)) = some tick)
+    (hpos : 0 ≤ toInt64 tick) :
+    getMomentumProducer c elected ((c.ticker.toTime tick).1 + wrap64 (c.blockTime * nsPerSec) * (i : Int)) = .ok a := by
+  unfold getMomentumProducer
+  rw [if_neg (by omega), htick]
+  simp only
+  rw [if_neg (by omega), hel]
+  simp only
+  unfold generateProducers
+  rw [if_neg (by omega), genEvents_find_complete _ hB _ _ _ _ ha]
+
+/-- negative witness: an instant inside a slot that is not the slot start has no producer (a re-timed momentum
+    is refused), while the slot start has one. -/
+theorem producer_inside_slot_refused :
+    getMomentumProducer ⟨0, 10, 3⟩ (fun _ => some [[1], [2], [3]]) (15 * nsPerSec) = .error .noSlotStartsHere ∧
+    getMomentumProducer ⟨0, 10, 3⟩ (fun _ => some [[1], [2], [3]]) (10 * nsPerSec) = .ok [2] := by decide
+
 end ZV.C05
